@@ -67,7 +67,9 @@ RLit(st, tp, v) ==
   CASE v.t = "myst" -> Kw(st, tp, "k_mysterious")
     [] v.t = "null" -> Kw(st, tp, "k_null")
     [] v.t = "bool" -> Kw(st, tp, IF v.b THEN "k_true" ELSE "k_false")
-    [] v.t = "num"  -> LET sp == IF v.n % Den # 0 /\ v.n < Den THEN NumSpellings(v) ELSE SubSeq(NumSpellings(v), 1, IF v.n % Den = 0 THEN 4 ELSE 3)
+    [] v.t = "num"  -> LET sp == IF v.c = "big" THEN <<v.d, v.d \o ".0", "0" \o v.d>>                      \* symbolic numbers: the canonical text and
+                                 ELSE IF v.c = "tiny" THEN <<v.d, v.d \o "0", SubSeq(v.d, 2, Len(v.d))>>      \* spellings of the same decimal numeral
+                                 ELSE IF v.n % Den # 0 /\ v.n < Den THEN NumSpellings(v) ELSE SubSeq(NumSpellings(v), 1, IF v.n % Den = 0 THEN 4 ELSE 3)
                            p == Pick(st, tp, Len(sp)) IN Out(p[2], sp[p[1] + 1])
     [] v.t = "str"  -> IF v.s = "" THEN (LET p == Pick(st, tp, 2) IN IF p[1] = 0 THEN Out(p[2], "\"\"") ELSE Kw(p[2], tp, "k_empty"))
                        ELSE Out(st, "\"" \o v.s \o "\"")
@@ -187,7 +189,7 @@ Expressible(e) ==
     [] OTHER -> TRUE
 
 (* statements and programs that some text denotes *)
-LitOK(v) == CASE v.t = "num" -> v.c = "fin" /\ v.n >= 0
+LitOK(v) == CASE v.t = "num" -> (v.c = "fin" /\ v.n >= 0) \/ (v.c \in {"big", "tiny"} /\ v.s > 0)
               [] v.t = "str" -> \A i \in 1..Len(v.s) : CharAt(v.s, i) \notin {"\"", NL}
               [] OTHER -> TRUE
 RECURSIVE LitsOK(_)
